@@ -140,7 +140,9 @@ struct ReaderCfg { int n; bool delta[3]; };
 //          (otherwise: step on every callback, decrease and appear/disappear on cb0 only)
 //   reps:  one reader configuration per multiset of temporalities, otherwise all 14 ordered ones
 //   both_starts: histories starting with no callback registered as well as with cb0 registered
-struct Part { int depth; bool rich; bool reps; bool both_starts; };
+//   slim:  callbacks cb0 and cb2 only (same function, different state), script operations on cb0
+//          only, at most two readers - the alphabet of the deepest part
+struct Part { int depth; bool rich; bool reps; bool both_starts; bool slim; };
 std::vector<Part> g_parts;
 std::vector<ReaderCfg> g_readers_all, g_readers_rep;
 
@@ -239,7 +241,7 @@ void run_observable(vf::Ctx &c) {
   const OKind kind = (OKind)c.pick("kind", 3);
   const bool is_double = c.pick("type", 2) == 1;
   const std::vector<ReaderCfg> &g_readers = P.reps ? g_readers_rep : g_readers_all;
-  const int rcfg = c.pick("readers", (int)g_readers.size());
+  const int rcfg = c.pick("readers", P.slim ? 5 : (int)g_readers.size());  // the first five representatives have at most two readers
   const bool prereg = P.both_starts ? c.pick("start", 2) == 0 : true;
   const ReaderCfg &RC = g_readers[rcfg];
   const int R = RC.n;
@@ -322,7 +324,7 @@ void run_observable(vf::Ctx &c) {
     int n = 0;
     if (!last) {
       for (int j = 0; j < NSLOT; ++j) {
-        if (!registered[j]) continue;
+        if (!registered[j] || (P.slim && j != 0)) continue;
         ops[n++] = {OP_STEP, j};
         if (!monotone && (j == 0 || P.rich)) ops[n++] = {OP_DEC, j};
         if (j == 0 || (j == 1 && P.rich)) ops[n++] = {OP_TOGGLE, j};
@@ -330,7 +332,8 @@ void run_observable(vf::Ctx &c) {
     }
     for (int r = 0; r < R; ++r) ops[n++] = {OP_COLLECT, r};
     if (!last && alive) {
-      for (int j = 0; j < NSLOT; ++j) ops[n++] = {registered[j] ? OP_REMOVE : OP_ADD, j};
+      for (int j = 0; j < NSLOT; ++j)
+        if (!(P.slim && j == 1)) ops[n++] = {registered[j] ? OP_REMOVE : OP_ADD, j};
       ops[n++] = {OP_DESTROY, 0};
     }
     if (n > 1) {
@@ -550,14 +553,14 @@ void setup(vf::Options &o) {
     }
   g_readers_rep = {{1, {D}}, {1, {C}}, {2, {D, D}}, {2, {D, C}}, {2, {C, C}}, {3, {D, D, C}}, {3, {D, C, C}}, {3, {C, D, D}}};
 #if OPENTELEMETRY_ABI_VERSION_NO >= 2
-  if (o.thorough) g_parts = {{7, false, false, false}};
-  else g_parts = {{5, false, true, false}};
+  if (o.thorough) g_parts = {{5, false, false, false, false}, {6, false, true, false, false}};
+  else g_parts = {{5, false, true, false, false}};
 #else
-  if (o.thorough) g_parts = {{5, true, false, true}, {6, true, true, false}, {7, false, true, false}};
-  else g_parts = {{5, false, true, false}};
+  if (o.thorough) g_parts = {{5, true, false, true, false}, {6, true, true, false, false}, {7, false, true, false, true}};
+  else g_parts = {{5, false, true, false, false}};
 #endif
   std::string d = o.get("depth");
-  if (!d.empty()) g_parts = {{atoi(d.c_str()), o.get("rich") == "1", o.get("allreaders") != "1", o.get("bothstarts") == "1"}};
+  if (!d.empty()) g_parts = {{atoi(d.c_str()), o.get("rich") == "1", o.get("allreaders") != "1", o.get("bothstarts") == "1", o.get("slim") == "1"}};
 }
 
 void run(vf::Ctx &c) {
